@@ -43,6 +43,8 @@ type c15World struct {
 	tok        int
 	ops        []string
 	bad        bool
+	armedOp    string // an append is due right after the reader's next system call of this kind on the path
+	armedN     int
 	streamOver bool // plain follow: the file was removed after its data was delivered; the stream must end
 }
 
@@ -225,6 +227,20 @@ func init() {
 			}
 		}
 		s.FS.SetPlan(w.path, plan)
+		// "another process" acting between two system calls of the reader
+		s.FS.Hook = func(op, path string) {
+			if w.armedOp == "" || op != w.armedOp || path != w.path || !w.fileExists || w.bad || !w.ready {
+				return
+			}
+			w.armedOp = ""
+			w.opf("(right after the reader's %s call)", op)
+			var h *os.File
+			w.appendBytes(&h, w.armedN, false)
+			if h != nil {
+				h.Close()
+			}
+			rc.Fired["append-between-syscalls"]++
+		}
 		s.Run(rc.T, func() {
 			init := w.chunk(initial)
 			if err := os.WriteFile(w.path, init, 0o644); err != nil {
@@ -282,6 +298,11 @@ func init() {
 							ended = true
 						}
 					}
+				case k >= 8 && w.fileExists: // append right after the reader's next stat/read/open on the path
+					w.armedOp, w.armedN = []string{"stat", "read", "read", "open"}[t.W(4)], 1+t.W(20)
+					w.opf("arm: append %d bytes right after the reader's next %s", w.armedN, w.armedOp)
+					w.waitUntil(3*time.Second, func() bool { return w.armedOp == "" })
+					w.armedOp = ""
 				case k >= 8 && !w.fileExists && (w.reopen || w.streamOver): // re-create
 					prev := w.incDeliv
 					if w.streamOver {
